@@ -60,6 +60,11 @@ Definition gerr_eqb (a b : gerr) : bool :=
   | _, _ => false
   end.
 
+(* The validator API returns the inner selection-proof failure with the same text as an outer
+   signature failure; observed error classes are compared up to "some signature check failed". *)
+Definition sigfail (e : gerr) : bool := match e with EInner | ENoSig | EBadSig => true | _ => false end.
+Definition err_sim (a b : gerr) : bool := gerr_eqb a b || (sigfail a && sigfail b).
+
 Definition lockt := list (N * list Z).
 
 Fixpoint lookup {A} (v : N) (l : list (N * A)) : option A :=
@@ -156,8 +161,8 @@ Definition accepts (l : label) : bool :=
       | x :: _ =>
           all_empty (l_calls l) &&
           match e, l_err l with
-          | VApi _, Some y => gerr_eqb y x                     (* handlers walk the request in order: first failure *)
-          | Peer _ _, Some y => existsb (gerr_eqb y) errs      (* map order: some failure *)
+          | VApi _, Some y => err_sim y x                     (* handlers walk the request in order: first failure *)
+          | Peer _ _, Some y => existsb (err_sim y) errs      (* map order: some failure *)
           | _, None => false
           end
       end in
